@@ -214,17 +214,18 @@ def inheritance(ctx, rng):
         cal = rng.choice(list(CalendarTypes))
         cv = rng.choice(list(BusDayAdjustTypes))
         dg = rng.choice(list(DateGenRuleTypes))
+        eo = rng.random() < 0.4
         try:
-            sched = Schedule(e, tt, f, cal, cv, dg, end_of_month=False).adjusted_dts
+            sched = Schedule(e, tt, f, cal, cv, dg, end_of_month=eo).adjusted_dts
         except FinError:
             continue
         sl = fmtl(sched)
         for cls, name in ((SwapFixedLeg, 'SwapFixedLeg'), (SwapFloatLeg, 'SwapFloatLeg')):
             try:
                 if cls is SwapFixedLeg:
-                    leg = cls(e, tt, SwapTypes.PAY, 0.03, f, DayCountTypes.ACT_360, 1e6, False, 0, cal, cv, dg, False)
+                    leg = cls(e, tt, SwapTypes.PAY, 0.03, f, DayCountTypes.ACT_360, 1e6, 0.0, 0, cal, cv, dg, eo)
                 else:
-                    leg = cls(e, tt, SwapTypes.PAY, 0.0, f, DayCountTypes.ACT_360, 1e6, False, 0, cal, cv, dg, False)
+                    leg = cls(e, tt, SwapTypes.PAY, 0.0, f, DayCountTypes.ACT_360, 1e6, 0.0, 0, cal, cv, dg, eo)
             except FinError:
                 continue
             cnt += 1
@@ -232,7 +233,14 @@ def inheritance(ctx, rng):
             if got != sl:
                 ctx.violation(f'{name} accrual dates differ from the Schedule built from the same inputs',
                               {'effective': t, 'months': months, 'freq': f.name, 'cal': cal.name, 'conv': cv.name,
-                               'rule': dg.name, 'schedule': sl, 'leg': got}, clause='inheritance')
+                               'rule': dg.name, 'end_of_month': eo, 'schedule': sl, 'leg': got}, clause='inheritance')
+            # with zero payment lag the payment dates are the accrual end dates
+            gotp = fmtl(list(leg.payment_dts))
+            if gotp != fmtl(list(leg.end_accrued_dts)):
+                ctx.violation(f'{name} payment dates (lag 0) differ from its accrual end dates',
+                              {'effective': t, 'months': months, 'freq': f.name, 'cal': cal.name, 'conv': cv.name,
+                               'rule': dg.name, 'end_of_month': eo, 'payment': gotp, 'accrual_end': fmtl(list(leg.end_accrued_dts))},
+                              clause='inheritance')
         try:
             b = Bond(e, tt, 0.05, f, DayCountTypes.ACT_ACT_ICMA)
             bs = Schedule(e, tt, f, CalendarTypes.NONE, b.bd_type, b.dg_type, end_of_month=b.end_of_month).adjusted_dts
